@@ -198,7 +198,7 @@ def run(ctx):
             c.setdefault("hr", [])
         byid = {c["id"]: c for c in cases}
         ctx.sample({k: v for k, v in cases[0].items() if k in ("id", "kind", "net", "cmd")})
-        bad = ctx.validate("p2p/C19Cases.tla", [{k: v for k, v in c.items() if k != "mut"} for c in cases], "C19Cases.cfg", timeout=3000, per_shard_min=40)
+        bad = ctx.validate("p2p/C19Cases.tla", [{k: v for k, v in c.items() if k != "mut"} for c in cases], "C19Cases.cfg", timeout=7200, per_shard_min=40)
         for cid, why in bad.items():
             c = byid[cid]
             ctx.violation("%s:%s%s" % (c["kind"], why, (":" + c["mut"]) if "mut" in c and "accepts-invalid" not in why else ""),
